@@ -345,6 +345,10 @@ func (r *hnswRun) runHistory(g hnswCfg, exact bool, ops []scriptOp, props []stri
 					}
 				}
 				r.ref[op.id] = refItem{op.vec, md}
+			} else if !mdFitsFormat(md) && err.Error() == "Metadata too large" {
+				// refused before anything else is looked at: metadata the snapshot format cannot hold
+				answer("ins mdtoolarge")
+				c.Count("branch:insert-metadata-too-large")
 			} else {
 				answer("ins exists")
 				c.Count("branch:insert-exists")
@@ -528,7 +532,8 @@ func runHnsw(c *Ctx) {
 		var ops []scriptOp
 		live := map[int]bool{}
 		vi := 0
-		mds := []string{"-", "-", "a=1", "a=2,b=x", "k=v", "zz=" + strings.Repeat("q", 1+r.Intn(5))}
+		mds := []string{"-", "-", "a=1", "a=2,b=x", "k=v", "zz=" + strings.Repeat("q", 1+r.Intn(5)),
+			"-", "a=1", "k=v", strings.Repeat("K", 255) + "=fits", strings.Repeat("K", 256) + "=refused"}
 		for i := 0; i < nOps && vi < nvec; i++ {
 			k := r.Intn(100)
 			switch {
